@@ -196,6 +196,36 @@ def shard_words(args):
     return acc.export()
 
 
+def shard_many_words(args):
+    """5..9 words (lengths cycling through 1..7), gaps cycling through three kinds, columns up to 17."""
+    tier, seed, idx = args
+    acc = Acc(seed=seed)
+    k = 0
+    for nwords in (5, 6, 8, 9):
+        for offset in range(0, 7):
+            for gapshift in range(3):
+                k += 1
+                if k % 8 != idx:
+                    continue
+                spec = []
+                for wi in range(nwords):
+                    ln = 1 + (wi * 3 + offset) % 7
+                    spec.append(("abcdefghi"[wi] * ln, WORD_ATTS[wi % 4]))
+                    if wi < nwords - 1:
+                        spec.append((GAPS[(wi + gapshift) % 3], GAP_ATTS[wi % 4]))
+                spec = tuple(spec)
+                f = C.build(spec)
+                fc = C.cells(f)
+                text = "".join(t for t, _ in spec)
+                for columns in (1, 2, 3, 5, 7, 8, 9, 12, 16, 17):
+                    case = {"f": C.show_spec(spec), "columns": columns}
+                    acc.case(True, key=("mw", spec, columns), sample=case)
+                    acc.transitions += 2
+                    check(acc, f, fc, columns, case)
+                    check(acc, text, [(c, ()) for c in text], columns, {"text": text, "columns": columns, "as": "str"})
+    return acc.export()
+
+
 def shard_fresh_formatting(args):
     """Results must not depend on what was wrapped earlier in the same process (module-level caches keyed by formatting).  Each case
     uses a formatting that has never been seen before in this process - so the order 'mixed gap first, then uniform gap' (and the reverse)
@@ -229,6 +259,8 @@ def run(ctx):
     rep = Report()
     for d in ctx.pmap(shard_fresh_formatting, [(ctx.tier, ctx.seed, i) for i in range(4)]):
         rep.merge(d, "fresh_formatting_order")
+    for d in ctx.pmap(shard_many_words, [(ctx.tier, ctx.seed, i) for i in range(8)]):
+        rep.merge(d, "many_words")
     ns = 256 if ctx.thorough else 64
     for d in ctx.pmap(shard, [(ctx.tier, ctx.seed, i, ns) for i in range(ns)]):
         rep.merge(d, "exhaustive_short_strings")
